@@ -11,6 +11,7 @@ EmitCase == phase = "end" =>
     PrintT(<<"CASE", ToJson([
         flags |-> [i \in 1..Len(mods) |-> Flags(i)],
         imports |-> [i \in 1..Len(mods) |-> Imps(i)],
+        ipos |-> [i \in 1..Len(mods) |-> mods[i].ipos],
         decls |-> [i \in 1..Len(mods) |-> mods[i].decls],
         visible |-> [i \in 1..Len(mods) |-> SetToSortSeq(Visible(mods, i), LAMBDA a, b : TRUE)],
         seen |-> [i \in 1..Len(mods) |-> [x \in 1..Len(cur[i]) |-> SeenAs(mods, i, cur[i][x].n)]],
